@@ -1,5 +1,6 @@
 """C07: concurrent API calls are atomic, race-free and cannot deadlock."""
 import hashlib, os, time
+import re
 from vlib import common as C
 from checks import _conc as K
 
@@ -342,7 +343,7 @@ def evaluate(ctx, r, meta, variant, drv, stats, accept_cache):
     name = r.name
     replay = dict(case=name, variant=variant, lines=meta["lines"], out=r.lines[:400])
     if r.f25:
-        ctx.fail(dict(kind="resize-not-performed"), dict(replay, marker=r.f25),
+        ctx.fail(dict(kind="resize-not-performed", stage=(re.findall(r"stage-now=(\d+)", r.f25) or ["?"])[0]), dict(replay, marker=r.f25),
                  "file growth acknowledged by the log listener but never performed (%s)" % r.f25)
         return
     if r.hang:
